@@ -99,3 +99,21 @@ Proof.
   pose proof (unswept_vectors_mirror tw di) as [H1 [H2 _]]. split; assumption.
 Qed.
 Print Assumptions C04_segment_geometry_mirrors.
+
+(* aircraft level (Model/SegSort.v, Proofs/SegSortP.v): the left-hand segments of a wing are put in order by repeatedly picking the one
+   whose tip is farthest from the body x-axis.  With -1 as the distance to beat in every pass (fix d0fcbd7) the result holds every segment
+   of the wing exactly once, whatever the distances (they are not negative) - as the right-hand side, which starts from infinity, always
+   did; with 0, as in the pinned snapshot, a segment whose tip lies on the axis is never picked: the left-hand description of an aircraft
+   loses a segment that its right-hand mirror image keeps. *)
+From MuxV Require Import Model.SegSort Proofs.SegSortP.
+Theorem C04_left_segments_all_sorted : forall (l : list (seg (T:=R))), NoDup (map fst l) -> (forall i n, In (i, n) l -> 0 <= n) ->
+  NoDup (sort_left (-1) (length l) l []) /\ forall i, In i (sort_left (-1) (length l) l []) <-> In i (map fst l).
+Proof. exact sort_left_all. Qed.
+Print Assumptions C04_left_segments_all_sorted.
+Example C04_zero_to_beat_refuted :
+  NoDup (map fst [(1%nat, 0); (2%nat, 3)]) /\ (forall i n, In (i, n) [(1%nat, 0); (2%nat, 3)] -> 0 <= n) /\ ~ In 1%nat (sort_left 0 2 [(1%nat, 0); (2%nat, 3)] []).
+Proof.
+  split; [repeat constructor; cbn; intuition congruence|]. split; [intros i n [H|[H|[]]]; inversion H; lra|].
+  intro H. destruct (sort_left_picks_beaters 0 _ _ _ _ H) as [[]|[n [Hin Hn]]].
+  destruct Hin as [Hin|[Hin|[]]]; inversion Hin; subst; lra.
+Qed.
